@@ -49,12 +49,13 @@ MaskOf(p) == SumBits(p)
 K(t, must, amb, slots, ctx) == [t |-> t, must |-> must, amb |-> amb, slots |-> slots, ctx |-> ctx]
 KindTab == [
   \* ---- statements ----
-  Assign           |-> K("S", "ASSIGN", {}, <<"value">>, "any"),
-  AugAssign        |-> K("S", "ASSIGN", {}, <<"value">>, "any"),
-  AnnAssign        |-> K("S", "ASSIGN", {}, <<"value", "annotation">>, "any"),
+  \* store / chain_store (`a = b = v`) / asname are STORE positions: a name, a subscript or an attribute
+  Assign           |-> K("S", "ASSIGN", {}, <<"value", "store", "chain_store">>, "any"),
+  AugAssign        |-> K("S", "ASSIGN", {}, <<"value", "store">>, "any"),
+  AnnAssign        |-> K("S", "ASSIGN", {}, <<"value", "annotation", "store">>, "any"),
   If               |-> K("S", "CONDITION", {}, <<"test", "body", "orelse">>, "any"),
   Match            |-> K("S", "CONDITION", {}, <<"subject", "body", "guard">>, "any"),
-  For              |-> K("S", "LOOP", {}, <<"iter", "body", "orelse">>, "any"),
+  For              |-> K("S", "LOOP", {}, <<"iter", "body", "orelse", "store">>, "any"),
   While            |-> K("S", "LOOP", {}, <<"test", "body">>, "any"),
   AsyncFor         |-> K("S", "LOOP", {}, <<"iter", "body">>, "afunc"),
   Try              |-> K("S", "EXCEPTION", {}, <<"body", "handler", "orelse", "final", "exctype">>, "any"),
@@ -66,7 +67,7 @@ KindTab == [
   AsyncFunctionDef |-> K("S", "FUNCTION_DEFINITION", {}, <<"body", "deco", "default">>, "any"),
   Import           |-> K("S", "IMPORT", {}, <<>>, "any"),
   ImportFrom       |-> K("S", "IMPORT", {}, <<>>, "any"),
-  With             |-> K("S", "none", {"CALL", "LOOP", "EXCEPTION"}, <<"item", "body">>, "any"),
+  With             |-> K("S", "none", {"CALL", "LOOP", "EXCEPTION"}, <<"item", "body", "asname">>, "any"),
   AsyncWith        |-> K("S", "none", {"CALL", "LOOP", "EXCEPTION"}, <<"item", "body">>, "afunc"),
   Delete           |-> K("S", "none", {"ASSIGN"}, <<"target">>, "any"),
   Return           |-> K("S", "none", {"FUNCTION_DEFINITION"}, <<"value">>, "func"),
@@ -110,6 +111,9 @@ Kinds == DOMAIN KindTab
 
 \* slots holding statements; every other slot holds an expression
 StmtSlots == {"body", "orelse", "handler", "final"}
+\* slots that are assignment targets: only kinds that can be stored to fit
+StoreSlots == {"store", "chain_store", "asname"}
+StoreKinds == {"Name", "Subscript", "Attribute"}
 \* slots whose content is NOT evaluated when the program runs (only compiled)
 \* - the verdict does not depend on this: a forbidden construct is refused wherever it hides
 \* slots that add an implicit operation of their own: a decorator is an implicit call
@@ -119,6 +123,7 @@ FuncKinds == {"FunctionDef", "AsyncFunctionDef"}
 Fits(pk, s, ck) ==
   /\ ck # "Expr"                            \* the wrapper is implicit (an expression in a statement slot)
   /\ (s \in StmtSlots) \/ KindTab[ck].t = "E"
+  /\ (s \in StoreSlots) => ck \in StoreKinds
   /\ CASE KindTab[ck].ctx = "any"    -> TRUE
        [] KindTab[ck].ctx = "func"   -> pk \in FuncKinds /\ s = "body"
        [] KindTab[ck].ctx = "afunc"  -> pk = "AsyncFunctionDef" /\ s = "body"
